@@ -53,6 +53,7 @@ fn make_cfg(profile: &str, tier: Tier, t: &mut Tape) -> Cfg {
         threads: false,
         late_power_levels: t.chance(1, 3),
         big_events: false,
+        many_admins: t.chance(1, 4),
         w: w.clone(),
     };
     match profile {
@@ -110,6 +111,7 @@ fn make_cfg(profile: &str, tier: Tier, t: &mut Tape) -> Cfg {
             c.clock_faults = true;
             c.crashes = t.chance(1, 2);
             c.resolve_repeats = t.range(1, 3);
+            c.many_admins = t.chance(1, 2);
             c.threads = t.chance(1, 2);
             c.probe_pct = 15;
             c.tamper_pct = 0;
@@ -126,6 +128,7 @@ fn make_cfg(profile: &str, tier: Tier, t: &mut Tape) -> Cfg {
             c.clock_faults = t.chance(2, 3);
             c.byz_pct = if t.chance(1, 2) { t.range(5, 25) } else { 0 };
             c.late_power_levels = t.chance(1, 2);
+            c.many_admins = t.chance(2, 3);
             c.probe_pct = 20;
             c.tamper_pct = 0;
             c.corrupt_pct = 0;
